@@ -455,7 +455,7 @@ def check(pid, tier, seed):
             found_input = True
             break
     searched = None
-    if not found_input and meta is not None and (build_broken or corr_error or mismatches):
+    if not found_input and meta is not None and (build_broken or corr_error or mismatches or contract_failed):
         # search step: the oracle judges the implementation's recorded outputs of all generated cases directly
         rp = os.path.join(replay_dir, f"{pid}-{seed}-s0.json")
         rc, sout = sh([VENV_PY, os.path.join(ROOT, "harness", "driver.py"), "judgeall", cfg["harness"], "--dir", outdir,
